@@ -374,7 +374,7 @@ func (a *Actor) onData(b []byte) {
 			op.Return = s.step
 			op.ReturnT = s.now()
 			op.Reply = v
-			if n := op.name(); n == "server" || n == "info" {
+			if n := op.name(); n == "server" || n == "info" || strings.Contains(v.String(), "heap_size") || strings.Contains(v.String(), "used_memory") {
 				// contains process memory statistics: not part of the replayable history
 				s.logf("  a%02d< op%03d <%s reply, %d items>", a.id, op.Idx, n, len(v.A))
 			} else {
